@@ -169,6 +169,7 @@ func (c CounterStyle) renderValue(counterValue int, counter *CounterStyleDescrip
 		useNegative                    bool
 	)
 	isNegative := counterValue < 0
+	originalValue := counterValue // the fallback style must see the signed value
 	if isNegative {
 		vs := counter.Negative
 		if vs == ([2]pr.NamedString{}) {
@@ -197,17 +198,17 @@ func (c CounterStyle) renderValue(counterValue int, counter *CounterStyleDescrip
 		}
 		initial, ok = nonRepeating(counter.Symbols, fixedNumber, counterValue)
 		if !ok {
-			return c.renderValue(counterValue, c.resolveCounter(counter.fallback(), previousTypes), previousTypes)
+			return c.renderValue(originalValue, c.resolveCounter(counter.fallback(), previousTypes), previousTypes)
 		}
 	case "symbolic":
 		initial, ok = symbolic(counter.Symbols, counterValue)
 		if !ok {
-			return c.RenderValue(counterValue, "decimal")
+			return c.renderValue(originalValue, c.resolveCounter(counter.fallback(), previousTypes), previousTypes)
 		}
 	case "alphabetic":
 		initial, ok = alphabetic(counter.Symbols, counterValue)
 		if !ok {
-			return c.RenderValue(counterValue, "decimal")
+			return c.renderValue(originalValue, c.resolveCounter(counter.fallback(), previousTypes), previousTypes)
 		}
 	case "numeric":
 		initial, ok = numeric(counter.Symbols, counterValue)
@@ -220,7 +221,7 @@ func (c CounterStyle) renderValue(counterValue int, counter *CounterStyleDescrip
 		}
 		initial, ok = additive(counter.AdditiveSymbols, counterValue)
 		if !ok {
-			return c.renderValue(counterValue, c.resolveCounter(counter.fallback(), previousTypes), previousTypes)
+			return c.renderValue(originalValue, c.resolveCounter(counter.fallback(), previousTypes), previousTypes)
 		}
 	}
 
